@@ -23,7 +23,7 @@
    Everything else (binary layout, hex decoding, all comparisons, check order,
    rejection reason) is computed here. *)
 From Verif Require Import Lib.Base.
-From Coq Require Import ZArith.
+From Coq Require Import ZArith Uint63.
 
 (* ---------- bytes ---------- *)
 Definition blen (b : bytes) : N := N.of_nat (length b).
@@ -511,9 +511,11 @@ Definition default_policy : Policy := mkPolicy false 30 12 [] [] None.
    The harness evaluates the real primitives on the arguments the real code
    passes them and records the graph; arguments are identified by a
    fingerprint computed identically on both sides. *)
-Definition FP_P : N := 2305843009213693951.   (* 2^61 - 1 *)
+(* fingerprint: Horner mod 2^63 on primitive integers (cheap under vm_compute) *)
 Definition fp (b : bytes) : N :=
-  fold_left (fun acc x => (acc * 257 + x + 1) mod FP_P) b (blen b).
+  Z.to_N (Uint63.to_Z
+    (fold_left (fun acc x => (acc * 257 + Uint63.of_Z (Z.of_N x) + 1)%uint63) b
+               (Uint63.of_Z (Z.of_nat (length b))))).
 
 Record Tables := mkTables {
   t_sha : list (N * bytes);            (* fp(argument) -> digest *)
@@ -546,9 +548,16 @@ Definition patch1 (b : bytes) (p : N * N * bytes) : bytes :=
   let '(off, del, ins) := p in
   firstn (N.to_nat off) b ++ ins ++ skipn (N.to_nat off + N.to_nat del) b.
 Definition patch (b : bytes) (ps : list (N * N * bytes)) : bytes := fold_left patch1 ps b.
-(* 8-byte big-endian words, last word shorter: compact literals for the vectors *)
+(* byte-string literals decoded with shifts (linear): [hx len 0xHEX] is the
+   big-endian string of length len; [unwords total ws] concatenates 8-byte words *)
+Fixpoint hx_aux (len : nat) (n : N) (acc : bytes) : bytes :=
+  match len with
+  | O => acc
+  | S l => hx_aux l (N.shiftr n 8) (N.land n 255 :: acc)
+  end.
+Definition hx (len : nat) (n : N) : bytes := hx_aux len n [].
 Definition unwords (total : nat) (ws : list N) : bytes :=
-  firstn total (flat_map (bs 8) ws).
+  firstn total (flat_map (hx 8) ws).
 
 Record Case := mkCase {
   k_env : Env; k_policy : Policy; k_ts : Z;
